@@ -2,7 +2,8 @@
    (Same exact-arithmetic caveat as C10 for the f64 evaluation.) *)
 From Coq Require Import Lia ZArith.
 From ChitchatModel Require Import Base SMap Ids Bytes Params NodeState Stream DeltaWire Message Cluster
-  FD Chitchat SMap_lemmas NodeState_lemmas Cluster_lemmas FD_lemmas Inv Compute_lemmas NodeInv HbMono.
+  FD Chitchat World SMap_lemmas NodeState_lemmas Cluster_lemmas FD_lemmas Inv Compute_lemmas NodeInv HbMono
+  Truth NodeTruth Reach HbReach GuardsGen GuardTie.
 
 (* a replayed, duplicated, equal or lower heartbeat for a member whose stored heartbeat is
    non-zero — from any relay, any number of times, in any order — leaves the WHOLE node unchanged:
@@ -87,3 +88,41 @@ Theorem C11_deltas_keep_the_heartbeat : forall now c nd c1 st ev,
   nd_bounded nd -> apply_delta now c nd = Ok (c1, st, ev) -> c_hb c1 = c_hb c.
 Proof. exact apply_delta_hb. Qed.
 Print Assumptions C11_deltas_keep_the_heartbeat.
+
+(* ... and over every schedule: along every step of the global relation from every reachable state
+   (local writes, tombstone GC, the node's own heartbeats, clock, liveness evaluation, SYN creation,
+   delivery of any message ever sent — loss, duplication, reordering, relays), the heartbeat a node
+   stores for a member it keeps holding never decreases; a copy disappears only when a liveness
+   evaluation removes the member (C12 then remembers the heartbeat held at removal and re-creates the
+   member only for a strictly higher one).  So "the stored heartbeat" in C11_stale_heartbeat_is_noop
+   is the highest value observed during the whole time the member has been held, whatever happened
+   in between. *)
+Theorem C11_heartbeats_monotone_along_steps : forall zc,
+  (forall b c, zc b = Some c -> len c <= len b) -> forall strict g g',
+  reachable zc strict g -> gstep zc strict g g' ->
+  forall a n, node_at g a = Some n ->
+    exists n', node_at g' a = Some n' /\
+      (forall X c, nm_get X (cs_nodes (nd_cs n)) = Some c ->
+         nm_get X (cs_nodes (nd_cs n')) = None \/
+         exists c', nm_get X (cs_nodes (nd_cs n')) = Some c' /\ (c_hb c <= c_hb c')%N) /\
+      ((forall b nb oracle, g' <> mkG (with_nodes (g_w g) (set_nth (w_nodes (g_w g)) b (update_nodes_liveness (w_now (g_w g)) nb oracle))) (g_sent g) (g_T g)) ->
+       forall X c, nm_get X (cs_nodes (nd_cs n)) = Some c ->
+         exists c', nm_get X (cs_nodes (nd_cs n')) = Some c' /\ (c_hb c <= c_hb c')%N).
+Proof. exact heartbeats_monotone_along_steps. Qed.
+Print Assumptions C11_heartbeats_monotone_along_steps.
+
+(* ---- the tie of the decision guards to the sources (GuardTie.v; see C14.v for the scheme):
+   the model function is the decision tree over the model's guards g_x, and each g_x cuts its
+   operands' space along the same boundary as rs_x, the translation of today's Rust expression
+   (regenerated on every run by tools/guards.py).  A source change that moves a boundary breaks
+   this theorem on the next run. ---- *)
+Theorem C11_freshness_guards_are_the_source_guards :
+  (forall c hb, try_set_heartbeat c hb =
+     if g_hb_first (c_hb c) then (mkCopy hb (c_gc c) (c_max c) (c_kvs c), false)
+     else if g_hb_fresh hb (c_hb c) then (mkCopy hb (c_gc c) (c_max c) (c_kvs c), true)
+     else (c, false)) /\
+  ((forall hb, rs_hb_first hb = g_hb_first hb) \/ (forall hb, rs_hb_first hb = negb (g_hb_first hb))) /\
+  ((forall nhb hb, rs_hb_fresh nhb hb = g_hb_fresh nhb hb) \/ (forall nhb hb, rs_hb_fresh nhb hb = negb (g_hb_fresh nhb hb))) /\
+  ((forall i m, rs_fd_interval i m = g_fd_interval i m) \/ (forall i m, rs_fd_interval i m = negb (g_fd_interval i m))).
+Proof. exact (conj try_set_heartbeat_is_the_tree (conj tie_hb_first (conj tie_hb_fresh tie_fd_interval))). Qed.
+Print Assumptions C11_freshness_guards_are_the_source_guards.
